@@ -55,6 +55,17 @@ def _solve_z3cli(args):
                     timeout_ms // 1000)
 
 
+def _solve_z3newcli(args):
+    """z3 5.1 through its command-line front end (the z3-solver wheel's `z3-new`): with (set-logic ALL) it configures itself differently
+    from the Python API's Solver() and decides several heavily quantified VCs in seconds that the API rung leaves open"""
+    smt2, timeout_ms, _ = args
+    import shutil
+    exe = shutil.which("z3-new")
+    if exe is None:
+        return "unknown", 0.0, "", "z3-new not on PATH"
+    return _run_cli([exe, f"-T:{max(1, timeout_ms // 1000)}", "-smt2"], "(set-logic ALL)\n" + smt2, timeout_ms // 1000)
+
+
 def _solve_cvc5(args):
     smt2, timeout_ms, _ = args
     return _run_cli(["/usr/bin/cvc5", f"--tlimit={timeout_ms}", "--lang=smt2"], "(set-logic ALL)\n" + smt2,
@@ -155,7 +166,7 @@ def discharge(obls, timeout_ms=60000, second_solver=False, quick_ms=4000):
     todo = left
     # performance hint only (never a verdict): which ladder step discharged an obligation of this name last time
     hints = _load_hints()
-    solvers = {"z3-5.1.0": _solve_z3py, "z3-4.8.12": _solve_z3cli, "cvc5-1.0.3": _solve_cvc5}
+    solvers = {"z3-5.1.0": _solve_z3py, "z3-4.8.12": _solve_z3cli, "cvc5-1.0.3": _solve_cvc5, "z3-5.1.0-cli": _solve_z3newcli}
     groups = {}
     for o in todo:
         h = hints.get(o.name)
@@ -163,11 +174,12 @@ def discharge(obls, timeout_ms=60000, second_solver=False, quick_ms=4000):
             groups.setdefault(tuple(h), []).append(o)
     hinted = set()
     for (backend, variant), items in groups.items():
-        left = run(solvers[backend], backend, items, quick_ms * 2, variant)
+        left = run(solvers[backend], backend, items, max(quick_ms * 2, min(timeout_ms, 30000)), variant)   # the rung that worked last time: generous
         hinted |= {id(o) for o in items if o not in left}
     todo = [o for o in todo if id(o) not in hinted]
     rest = run(_solve_z3py, "z3-5.1.0", todo, quick_ms, "recent")
     rest = run(_solve_z3cli, "z3-4.8.12", rest, quick_ms, "all")
+    rest = run(_solve_z3newcli, "z3-5.1.0-cli", rest, max(quick_ms * 2, min(timeout_ms, 15000)), "all")
     for variant in ("relevant:2", "recent:20", "recent:50", "entry+recent"):
         rest = run(_solve_z3py, "z3-5.1.0", rest, quick_ms, variant)
         rest = run(_solve_z3cli, "z3-4.8.12", rest, quick_ms, variant)
@@ -195,12 +207,12 @@ def discharge(obls, timeout_ms=60000, second_solver=False, quick_ms=4000):
         o.backend = "none"
     if second_solver:
         # independent re-check of everything the first solver discharged (thorough tier), same hypothesis selection
-        first = [o for o in obls if o.verdict == "discharged" and o.backend == "z3-5.1.0"]
+        first = [o for o in obls if o.verdict == "discharged" and o.backend in ("z3-5.1.0", "z3-5.1.0-cli")]
         res = pmap(_solve_z3cli, [(text(o, getattr(o, "hyps_used", "all")), 30000, False) for o in first], 30000)
         for o, (r, secs, _, _) in zip(first, res):
             o.second = r
             if r == "sat" and getattr(o, "hyps_used", "all") == "all":
-                o.verdict, o.detail = "solver-disagreement", "z3-5.1.0 unsat, z3-4.8.12 sat"
+                o.verdict, o.detail = "solver-disagreement", f"{o.backend} unsat, z3-4.8.12 sat"
     return obls
 
 
